@@ -55,8 +55,15 @@ var ignorable = map[string]bool{
 	"(*sync.Mutex).Unlock":    true,
 }
 
+// curPkgForEffects: a call inside the package that defines the callee is an ordinary call, not a step of the
+// layer below (clients.Inject calling clients.Lookup).
+var curPkgForEffects string
+
 func effectOf(f *types.Func) (string, bool) {
 	if f == nil {
+		return "", false
+	}
+	if f.Pkg() != nil && f.Pkg().Path() == curPkgForEffects && strings.HasSuffix(curPkgForEffects, "/clients") {
 		return "", false
 	}
 	op, ok := effectOps[f.FullName()]
